@@ -1,9 +1,9 @@
-\* (E) exhaustive, thorough: all command sequences of length <= 7, every size x condition x access path on every location
+\* (E) exhaustive, thorough: all command sequences of length <= 7 over 6 globals + 2 locals, spread request table
 SPECIFICATION Spec
 CONSTANTS
   Globals = {"G0", "G1", "G2", "G3", "G4", "G5"}
   Locals = {"LA", "LB"}
-  KindTab <- FullTab
+  KindTab <- SpreadTab
   MaxOps = 7
   SlotFirst = TRUE
   Distribute = TRUE
